@@ -53,6 +53,11 @@ def check_term(acc: Acc, cls: str, p, h: float, xs: list[float]) -> None:
     mono = cls in R.MONOTONIC
     if bool(term.is_monotonic()) != mono:
         acc.violate("is_monotonic", {"term": cls}, case0, mono, bool(term.is_monotonic()), f"{cls}.is_monotonic()")
+    if cls == "Discrete":
+        # a repeated x-coordinate is a vertical edge: the value exactly AT it is not specified (numpy.interp does not
+        # document ties); everything around it, including the floating-point neighbours, is
+        abscissae = list(p[0::2])
+        xs = [x for x in xs if abscissae.count(x) < 2]
     pts = xs + [math.nan]
     arr = np.array(pts)
     keep = arr.copy()
@@ -69,6 +74,19 @@ def check_term(acc: Acc, cls: str, p, h: float, xs: list[float]) -> None:
         acc.violate("array-shape", {"term": cls}, case0, [arr.shape], [np.shape(y1), np.shape(y2)],
                     f"{cls}: array evaluation does not preserve the shape")
         return
+    # single / half precision arrays are the same points as their double-precision values (the library converts first)
+    for dtype in (np.float32, np.float16):
+        with np.errstate(over="ignore"):
+            narrow = arr.astype(dtype)
+        wide = narrow.astype(np.float64)
+        yn, yw = np.asarray(term.membership(narrow), dtype=float), np.asarray(term.membership(wide), dtype=float)
+        if yn.shape != yw.shape or not np.allclose(yn, yw, rtol=0, atol=1e-12, equal_nan=True):
+            k = int(np.argmax(~np.isclose(yn, yw, rtol=0, atol=1e-12, equal_nan=True))) if yn.shape == yw.shape else 0
+            acc.violate("array-kind", {"term": cls, "operand": np.dtype(dtype).name}, {**case0, "x": float(wide[k])}, float(yw[k]),
+                        float(yn[k]) if yn.shape == yw.shape else list(yn.shape),
+                        f"{cls}{p}: membership of a {np.dtype(dtype).name} array at {float(wide[k])!r} is {float(yn[k]) if yn.shape == yw.shape else yn.shape}, "
+                        f"of the same value in double precision {float(yw[k])!r}")
+            break
     # integer-typed x (Python int, integer array) is the same point as the float
     for xi in (-1, 0, 1, 2):
         vi, vf = term.membership(xi), term.membership(float(xi))
